@@ -102,7 +102,7 @@ def canon_run(run):
     return "ok " + safe_canon(plays[0][1])
 
 
-def run_case(ctx, spec, traps, c, out, cache={}):
+def run_case(ctx, spec, traps, c, out, cache={}, other_spec=None):
     from kirin import rewrite
     from kirin.analysis import const
     from bloqade.shuttle.dialects import path
@@ -152,6 +152,15 @@ def run_case(ctx, spec, traps, c, out, cache={}):
         return "unfolded"
     res["constprop"] = fold(stamped)
     res["constprop_nospec"] = fold(prog)
+    if other_spec is not None:
+        # the spec-carrying interpreter traces with the spec it carries, whether or not a (different) spec is recorded on the call
+        a = canon_run(EV.run_with_events(stamped, other_spec, rargs))
+        b = canon_run(EV.run_with_events(prog, other_spec, rargs))
+        ctx.count("recorded_spec_vs_carried_spec_runs")
+        if a != b:
+            ctx.fail({"source": src[len(MOVE_HDR):], "wire_args": sx(list(c["wire"]))},
+                     f"spec-carrying interpreter: a call with another spec recorded on it yields {a[:200]}, the same call without a "
+                     f"recorded spec yields {b[:200]}")
     # ---- model requests ---------------------------------------------------------
     n = len(main["params"])
     names = ["main_self"] + [p[0] for p in main["params"]]
@@ -265,7 +274,7 @@ def run(ctx):
         if "trap" in repr(c["kernels"]):
             # the same program, same arguments, under a second spec in the same process
             ctx.count("second_spec_runs")
-            run_case(ctx, spec2, traps2, c, out)
+            run_case(ctx, spec2, traps2, c, out, other_spec=spec)
     if ctx.counts.get("compile_fail", 0) > 0.3 * n:
         raise HarnessFault("generator degenerate: >30% of generated programs do not compile")
     keys = ["spec", "main", "main_nospec", "constprop", "constprop_nospec"]
